@@ -145,6 +145,7 @@ class Sched(object):
         self.running = None
         self.preempt_disabled = 0
         self.in_run = False
+        self.quiet = False           # True: no choice points (set-up phase)
         global S
         if S is not None and S.in_run:
             raise HarnessError("nested scheduler")
@@ -220,7 +221,7 @@ class Sched(object):
             extra = [t for t in self._timed() if t not in en]
             extra.sort(key=lambda t: (t.deadline, t.tid))
         opts = en + extra
-        if len(opts) > 1:
+        if len(opts) > 1 and not self.quiet:
             costs = [0] + [1 if me_enabled else 0] * (len(en) - 1) \
                 + [1] * len(extra)
             idx = self.chooser.choose(len(opts), costs, 'sched',
